@@ -86,19 +86,28 @@ PROPS = {
     "C16": {
         "module": "ShapeVerif.Props.C16",
         "theorems": ["ShapeVerif.path_matches", "ShapeVerif.file_is_header_plus_text", "ShapeVerif.compile_deterministic",
-                     "ShapeVerif.name_congr", "ShapeVerif.name_clash_witness", "ShapeVerif.name_prefix_separates"],
+                     "ShapeVerif.name_congr", "ShapeVerif.name_clash_witness", "ShapeVerif.name_prefix_separates",
+                     "ShapeVerif.compile_ok_writes", "ShapeVerif.compile_error_leaves_fs", "ShapeVerif.compile_ok_iff",
+                     "ShapeVerif.compile_twice", "ShapeVerif.compile_never_panics", "ShapeVerif.history_file_is_last_text",
+                     "ShapeVerif.targetPath_inj"],
         "statements": {
             "path_matches": "the path written (OUT_DIR joined with `<name>.gen.shape.rs`) is the path the include macro reads, for every name without `/` (dots included)",
             "compile_deterministic": "the model compiler is a function of the source texts: same sources, same bytes",
             "name_congr": "equal shapes receive equal names (shapeName is a function of the shape)",
             "name_clash_witness": "two different object shapes with the same value types receive the same name (known finding D16, concrete witness)",
+            "compile_ok_writes": "compileJson fs env name paths = (fs', ok t) → fs'.read (macroPath dir name) = some (header ++ t) ∧ ∀ p ≠ target, fs'.read p = fs.read p   (any prior file system, e.g. one that already holds an older output)",
+            "compile_error_leaves_fs": "compileJson fs env name paths = (fs', out) → out is not ok → fs' = fs",
+            "compile_ok_iff": "a request succeeds ↔ every path is readable ∧ the list is non-empty ∧ from_str accepts every text (so unreadable / invalid / empty lists are errors, and nothing else is)",
+            "compile_twice": "target ∉ paths → compileJson fs .. = (fs1, ok t) → ∃ fs2, compileJson fs1 .. = (fs2, ok t) ∧ ∀ p, fs2.read p = fs1.read p",
+            "history_file_is_last_text": "after ANY sequence of requests into one directory (any names and source lists, failures in between), the file of each collection name holds header ++ the text returned by the last successful request for that name; names that never succeeded keep their previous file",
+            "targetPath_inj": "different collection names are written to different files",
         },
         "partial": ["'different sub-shapes receive different names' is false of the code (D16, pinned by the build tests' expected names) and is a recorded known finding; proved instead: names separate shapes of different kind/arity/optional flag (name_prefix_separates)",
-                    "'errors leave no output file' and byte-identical reruns are checked on the real compile_json (p_c16) for every source set, OUT_DIR and collection name of the run; the file system is not modelled"],
-        "rule": "p_c16 on source sets x 5 collection names (with dots and dashes) in fresh OUT_DIRs: exactly one file `<name>.gen.shape.rs`, content = header + returned text, second run byte-identical, returned text = generator's text for the shape the library infers, build crate's inference = library's inference; invalid/empty source lists: Err and empty OUT_DIR. Names: across all generated files of the run the maps sub-shape → type name and type name → sub-shape must both be functions. Non-trivial = successful compilation.",
-        "assumptions": [],
-        "level_text": "Path agreement, header+text, determinism and name congruence are Lean theorems about the model of compile_json/shape_name; the model's text is compared byte for byte with the real generator, and the file-system clauses are re-evaluated on the real compile_json each run.",
-        "level_note": "Trusted: Lean kernel; Lean model of json_shape_build (differential, byte-exact); std::fs and PathBuf::join assumed to behave as documented (exercised by p_c16).",
+                    "the file system is an abstract map path → content (Model/Build.lean): std::fs::{read_to_string, write}, PathBuf::join, env::var_os are assumed to behave as that map; the real compile_json is run on the same request histories and its directory compared with the model's after every request"],
+        "rule": "p_c16 on source sets x 5 collection names (with dots and dashes) in fresh OUT_DIRs: exactly one file `<name>.gen.shape.rs`, content = header + returned text, second run byte-identical, returned text = generator's text for the shape the library infers, build crate's inference = library's inference; invalid/empty source lists: Err and empty OUT_DIR. p_c16h: histories of 2-5 requests into ONE directory (all ordered pairs of 10 source lists incl. invalid, unreadable, empty and mixed lists under one name; random histories over 4 names incl. dotted ones), sources written before the first request or just before each: after every request the directory must be exactly {name ↦ header + last returned text}; the results and the final directory are compared with the model's runBuild. Names: across all generated files of the run the maps sub-shape → type name and type name → sub-shape must both be functions. Non-trivial = successful compilation.",
+        "assumptions": ["std::fs and PathBuf behave as the abstract map of Model/Build.lean (exercised by p_c16 / p_c16h on a real temporary directory)"],
+        "level_text": "compile_json is modelled as a step of a state machine over an abstract file system; for every prior state and every history of requests Lean proves: a failing request changes nothing, a successful one leaves header + returned text at the path the macro reads and touches no other file, requests succeed exactly on readable non-empty lists of accepted texts, recompiling is idempotent, and after any history each collection's file is the last returned text. Path agreement and name congruence are theorems; name injectivity is false (D16, known finding with proved witness). The model's generated text is compared byte for byte with the real generator, and the real compile_json is run on the same request histories (fresh and reused OUT_DIRs) with its directory compared with the model's.",
+        "level_note": "Trusted: Lean kernel; Lean model of json_shape_build incl. the abstract file system (differential: byte-exact text, directory contents per request history); std::fs and PathBuf::join assumed to behave as the abstract map.",
     },
     "C09": {
         "module": "ShapeVerif.Props.C09",
@@ -781,7 +790,7 @@ def external_ops(pid, ops, impl, tier):
         return g_ops, g_impl, [None] * len(g_ops), []
     import rustbatch
     import rustitems as R
-    limit = 600 if tier == "thorough" else 60
+    limit = 800 if tier == "thorough" else 200
     cases, meta = [], []
     for j, o, sx, text, srcs in gen_cases(ops, impl):
         if srcs is None or len(cases) >= limit:
